@@ -14,12 +14,18 @@ histories for a failing input and reports the violation either way).
 namespace SaoVerif
 
 theorem C08_decision_skeleton_as_modelled :
-    Generated.Skel.x_node_abci_go = Expected.Skel.x_node_abci_go ∧
-    Generated.Skel.x_node_keeper_msg_server_claim_reward_go = Expected.Skel.x_node_keeper_msg_server_claim_reward_go ∧
-    Generated.Skel.x_node_keeper_msg_server_add_vstorage_go = Expected.Skel.x_node_keeper_msg_server_add_vstorage_go ∧
-    Generated.Skel.x_node_keeper_msg_server_remove_vstorage_go = Expected.Skel.x_node_keeper_msg_server_remove_vstorage_go ∧
-    Generated.Skel.x_node_keeper_shard_pledge_management_go = Expected.Skel.x_node_keeper_shard_pledge_management_go ∧
-    Generated.Skel.x_node_keeper_keeper_go = Expected.Skel.x_node_keeper_keeper_go := by
+    [Generated.Skel.x_node_abci_go,
+     Generated.Skel.x_node_keeper_msg_server_claim_reward_go,
+     Generated.Skel.x_node_keeper_msg_server_add_vstorage_go,
+     Generated.Skel.x_node_keeper_msg_server_remove_vstorage_go,
+     Generated.Skel.x_node_keeper_shard_pledge_management_go,
+     Generated.Skel.x_node_keeper_keeper_go] =
+    [Expected.Skel.x_node_abci_go,
+     Expected.Skel.x_node_keeper_msg_server_claim_reward_go,
+     Expected.Skel.x_node_keeper_msg_server_add_vstorage_go,
+     Expected.Skel.x_node_keeper_msg_server_remove_vstorage_go,
+     Expected.Skel.x_node_keeper_shard_pledge_management_go,
+     Expected.Skel.x_node_keeper_keeper_go] := by
   decide +kernel
 
 end SaoVerif
